@@ -16,3 +16,5 @@ Definition c_StructEnd := 11.
 Definition c_ZeroTag := 12.
 Definition c_SimpleList := 13.
 Definition c_maxSkipDepth := 512.
+Definition c_conf_max_scan_token := 65536.
+Definition c_conf_blanks : list N := (cons 32%N (cons 10%N (cons 9%N nil))).
